@@ -31,7 +31,7 @@ def all_harnesses():
         for k in (1, 2, 3):
             h = Harness(f"c07_failmin_b{before}_k{k}", f"crate::c06::failing_minimal({before}, {k})", unwind=28,
                         unit="Graph::run error propagation (stream-less blocks)", stubs=GSTUBS, timeout=1500,
-                        shape={"blocks_before": before, "k": k}, core=((before, k) in ((0, 1), (1, 2))))
+                        shape={"blocks_before": before, "k": k}, core=False)  # 330-480 s each here, ~3x that on the check machine: thorough tier only
             h.quick_timeout = 870
             h.priority = True
             hs.append(h)
@@ -47,4 +47,4 @@ def all_harnesses():
 
 
 def harnesses(tier, seed):
-    return select(all_harnesses(), tier, seed, 2, max_priority=400)
+    return select(all_harnesses(), tier, seed, 2)
